@@ -252,6 +252,29 @@ class FermionicArray(AbelianArray):
             other, fn, inplace=True, **kwargs
         )
 
+    def _do_unary_op(self, fn, inplace=False):
+        """Need to sync phases before applying non-linear elementwise ops."""
+        new = self if inplace else self.copy()
+        new.phase_sync(inplace=True)
+        return super(FermionicArray, new)._do_unary_op(fn, inplace=True)
+
+    def _do_reduction(self, fn):
+        """Need to sync phases before reducing over the actual elements."""
+        x = self.phase_sync() if self.phases else self
+        return super(FermionicArray, x)._do_reduction(fn)
+
+    def clip(self, a_min, a_max):
+        """Clip the values in the array, accounting for lazy phases."""
+        x = self.phase_sync() if self.phases else self
+        return super(FermionicArray, x).clip(a_min, a_max)
+
+    def item(self):
+        """Convert a scalar fermionic array to a scalar, accounting for lazy
+        phases.
+        """
+        x = self.phase_sync() if self.phases else self
+        return super(FermionicArray, x).item()
+
     def _map_blocks(self, fn_block=None, fn_sector=None):
         super()._map_blocks(fn_block, fn_sector)
         if fn_sector is not None:
